@@ -34,10 +34,10 @@ PROPS["C16"] = {
     "level": "model_checking",
     "harness": ["C16_"],
     "tiers": {
-        "quick": {"timeout": "20s", "maxsteps": 12000000, "bounds": "13 self-recursion skeletons (8 tail, 5 non-tail); depth n symbolic in 0..3, accumulator a symbolic int64; base case at concrete depth 1100 (> MaxFrames) for 4 tail skeletons", "cross": 2},
+        "quick": {"timeout": "20s", "maxsteps": 12000000, "bounds": "19 self-recursion skeletons (8 tail, 5 non-tail, 4 mixing returned and discarded self calls, 2 with other calls after a discarded self call); depth n symbolic in 0..3, accumulator a symbolic int64; base case at concrete depth 1100 (> MaxFrames) for 4 tail skeletons; tail loop of symbolic depth 1..3 entered at call nesting MaxFrames-6..MaxFrames+2 (the last usable frame)", "cross": 2},
         "thorough": {"timeout": "60s", "maxsteps": 12000000, "bounds": "same skeletons; depth n symbolic in 0..6", "cross": 3},
     },
-    "reach": {"C16_Step": ["step"], "C16_Deep": ["deep"]},
+    "reach": {"C16_Step": ["step"], "C16_Deep": ["deep"], "C16_LastFrame": ["lastframe", "lastframe-unreachable"]},
     "assumptions": [
         "frame-space constancy at depth 10^6 is claimed by induction: at every tail re-entry observed at the VM's poll, frame index and operand-stack height equal their values at first entry (checked for all arguments within the depth bound) plus the concrete base case at depth 1100; depth 10^6 itself is not executed",
         "the VM probe is the engine's interception of atomic.LoadInt64(&v.aborting) (once per VM instruction); natively the same probe is not available, so the replay checks results only",
@@ -86,7 +86,7 @@ PROPS["C09"] = {
     "level": "model_checking",
     "harness": ["C09_"],
     "tiers": {
-        "quick": {"timeout": "20s", "maxsteps": 8000000, "bounds": "8 constructions (immutable/freeze of arrays and maps, nested, storage with spare capacity, module export, builtin-module table) x sequences of 1..2 operations from 18 array / 11 map operation templates (index/selector assignment, slicing + writes, append + writes, + + writes, copy + writes, splice, delete, for-in with writes, writes through nested/derived/wrapped values and through a function parameter); indices i, j, written value v and element payloads a, b are symbolic int64", "cross": 2},
+        "quick": {"timeout": "20s", "maxsteps": 8000000, "bounds": "10 constructions (immutable/freeze of arrays and maps, nested, storage with spare capacity, freeze of immutable, module export, builtin-module table) x sequences of 1..2 operations from 26 array / 13 map operation templates (index/selector assignment, slicing (also empty slices i:i) + writes/append/splice, append + writes, + + writes, copy + writes, splice, delete, for-in with writes, writes through nested/derived/wrapped values and through a function parameter); indices i, j, written value v and element payloads a, b are symbolic int64", "cross": 2},
         "thorough": {"timeout": "60s", "maxsteps": 8000000, "bounds": "as quick (sequence length 1..2); freeze laws on 5 shapes incl. shared sub-structure", "cross": 3},
     },
     "reach": {"C09_Ops": ["ops"], "C09_Freeze": ["freeze"]},
@@ -103,7 +103,7 @@ PROPS["C05"] = {
     "level": "model_checking",
     "harness": ["C05_"],
     "tiers": {
-        "quick": {"timeout": "20s", "maxsteps": 40000000, "casecap": 40, "bounds": "every builtin x 0..2 arguments (0..3 for range/splice; first from U(1,2), others from an 8-shape lite universe); 15 binary operators x U(1,2) x lite; IndexGet/IndexSet/Iterate/Copy/String/Equals/Call on U(1,2) x lite; each call must end within 60k SSA steps and 64 symbolic decisions (operand sizes <= 3); 24 hostile programs (ill-typed ops, /0, runaway recursion, operand-stack exhaustion, mutation during iteration, builtin misuse, cyclic containers, range overflow) with symbolic int inputs through Compiled.RunContext under the cooperative scheduler", "cross": 1},
+        "quick": {"timeout": "20s", "maxsteps": 40000000, "casecap": 40, "bounds": "every builtin x 0..2 arguments (0..3 for range/splice; first from U(1,2), others from an 8-shape lite universe); 15 binary operators x U(1,2) x lite; IndexGet/IndexSet/Iterate/Copy/String/Equals/Call on U(1,2) x lite; each call must end within 60k SSA steps and 64 symbolic decisions (operand sizes <= 3); 36 hostile programs (ill-typed ops, /0, runaway recursion, operand-stack exhaustion, mutation during iteration, builtin misuse, cyclic containers incl. cycles through immutable aliases, range overflow, host functions that panic with a string / error / run-time error / other value) with symbolic int inputs through Compiled.RunContext under the cooperative scheduler, with a live, a never-cancellable and an already-cancelled context (the last also with 3 programs that never terminate on their own)", "cross": 1},
         "thorough": {"timeout": "60s", "maxsteps": 40000000, "casecap": 40, "bounds": "as quick with U(1,3)", "cross": 2},
     },
     "reach": {"C05_Builtins": ["builtins"], "C05_Operators": ["operators"], "C05_Methods": ["methods"], "C05_RunContext": ["runcontext"]},
@@ -122,7 +122,7 @@ PROPS["C06"] = {
     "level": "model_checking",
     "harness": ["C06_"],
     "tiers": {
-        "quick": {"timeout": "20s", "maxsteps": 12000000, "bounds": "MaxStringLen and MaxBytesLen symbolic in 0..12, operand lengths 0..4 (case split), 22 string/bytes-producing operations of the core language (+, string(), bytes(), slicing, format incl. width/*/x/X/q/v, literals, host input); allocation budget N symbolic int64 (full range) over 8 allocation programs with symbolic inputs, compared with the unlimited run and with a second budget N2 >= N; tracked-allocation count for N in 0..40; OpCall step from frame indexes {1,2,512,MaxFrames-2..MaxFrames} x stack pointers {1,2,1000,StackSize-3..StackSize}", "cross": 2},
+        "quick": {"timeout": "20s", "maxsteps": 12000000, "bounds": "MaxStringLen and MaxBytesLen symbolic in 0..12, operand lengths 0..4 (case split), 33 string/bytes-producing operations of the core language (+, string(), bytes(), slicing, format incl. width/*/x/X/q/v, left-justified and padded directives as the last write, literals, host input); allocation budget N symbolic int64 (full range) over 14 allocation programs with symbolic inputs, compared with the unlimited run and with a second budget N2 >= N; tracked-allocation count for N in 0..40; OpCall step from frame indexes {1,2,512,MaxFrames-2..MaxFrames} x stack pointers {1,2,1000,StackSize-3..StackSize}", "cross": 2},
         "thorough": {"timeout": "60s", "maxsteps": 12000000, "bounds": "as quick", "cross": 3},
     },
     "reach": {"C06_StringLimits": ["ok", "limit-error"], "C06_AllocBudget": ["allocs"], "C06_AllocCount": ["count"], "C06_FrameStep": ["frame"]},
@@ -204,10 +204,10 @@ PROPS["C13"] = {
     "level": "model_checking",
     "harness": ["C13_"],
     "tiers": {
-        "quick": {"timeout": "20s", "maxsteps": 12000000, "bounds": "all 64 import graphs on 2 source modules + main (edges are finite choices); 9 hand-picked larger graphs (chains, deep diamonds, cycles not through the first module); 13 isolation/immutability/freshness cases with a symbolic input; 12 import names (plain, path-like, module-map names) x 3 configurations with file import disabled", "cross": 2},
+        "quick": {"timeout": "20s", "maxsteps": 12000000, "bounds": "all 64 import graphs on 2 source modules + main (edges are finite choices); 9 hand-picked larger graphs (chains, deep diamonds, cycles not through the first module); 13 isolation/immutability/freshness cases with a symbolic input; 29 export expression forms (literals, identifiers, + on arrays, || && ?: yielding containers, slices, calls, copy/append/splice results, nested imports) that must arrive immutable; all ordered pairs of 11 module-map names (several equal after path cleaning), each with its own export; 12 import names (plain, path-like, module-map names) x 3 configurations with file import disabled", "cross": 2},
         "thorough": {"timeout": "60s", "maxsteps": 12000000, "bounds": "all 4096 import graphs on 3 source modules + main; rest as quick", "cross": 3},
     },
-    "reach": {"C13_Shapes": ["shape-cycle", "shape-acyclic"], "C13_Graphs": ["cycle", "acyclic"], "C13_Isolation": ["iso-ok", "iso-compile-error", "iso-run-error"], "C13_NoFileSystem": ["nofs"]},
+    "reach": {"C13_Shapes": ["shape-cycle", "shape-acyclic"], "C13_Graphs": ["cycle", "acyclic"], "C13_Isolation": ["iso-ok", "iso-compile-error", "iso-run-error"], "C13_NoFileSystem": ["nofs"], "C13_ExportImmutable": ["export-immutable"], "C13_Names": ["names"]},
     "assumptions": ["the graph family has no wide variable: it is an exhaustive case split of the edge set (stated in DESIGN.md); 'never consults the file system' = no path reaches an os/io/ioutil/filepath entry point, all of which the engine traps",
                     "'compiled once' is observed as the number of distinct module functions in the constant pool after de-duplication"],
     "outside": "larger graphs; file import enabled (real files)",
@@ -218,10 +218,10 @@ PROPS["C14"] = {
     "level": "model_checking",
     "harness": ["C14_"],
     "tiers": {
-        "quick": {"timeout": "20s", "maxsteps": 40000000, "bounds": "4 multi-line programs (flat, calls nested 3 deep, dead code after returns/continues that shifts instruction offsets, loop + closure) where a symbolic input selects the failing operation; a module program; 6 sentinel/host-error cases; through Run and RunContext", "cross": 2},
+        "quick": {"timeout": "20s", "maxsteps": 40000000, "bounds": "systematic placement of the failing statement (C14_Marked): 7 failing forms x {main, function, module body, module function} x {at byte 0, after a lead statement} x 4 dead-code prefixes x 4 tails (no return / return / return + dead code) x {1, 2 modules} x {run once, twice}, expected file and line computed from a marker; 4 multi-line programs (flat, calls nested 3 deep, dead code after returns/continues that shifts instruction offsets, loop + closure) where a symbolic input selects the failing operation; a module program; 6 sentinel/host-error cases; through Run and RunContext", "cross": 2},
         "thorough": {"timeout": "60s", "maxsteps": 40000000, "bounds": "as quick", "cross": 3},
     },
-    "reach": {"C14_Positions": ["positions"], "C14_Module": ["module"], "C14_Unwrap": ["unwrap"]},
+    "reach": {"C14_Positions": ["positions"], "C14_Module": ["module"], "C14_Unwrap": ["unwrap"], "C14_Marked": ["marked"]},
     "assumptions": ["locations are compared by file and line (one statement per line in the programs); columns and message wording are not compared",
                     "Go runtime panics converted by RunContext (e.g. 1/0) carry no location and are not in the list"],
     "outside": "programs beyond the list; column accuracy",
@@ -232,10 +232,10 @@ PROPS["C15"] = {
     "level": "model_checking",
     "harness": ["C15_"],
     "tiers": {
-        "quick": {"timeout": "20s", "maxsteps": 12000000, "bounds": "Go universe: nil, string(0..2 bytes), int, int64, bool, rune, byte, float64, []byte, error, time.Time, []interface{} of 0..2 scalars, map[string]interface{} with a nested slice, []Object, map[string]Object, Object, payloads symbolic; accessors on U(1,2); histories: 2 Add/Remove steps, Compile, then 3 calls from {Set, Run, Get/IsDefined, Clone, GetAll} over 4 scripts and 3 names with symbolic values, against a map model", "cross": 2},
+        "quick": {"timeout": "20s", "maxsteps": 12000000, "bounds": "Go universe: nil, string(0..2 bytes), int, int64, bool, rune, byte, float64, []byte, error, time.Time, []interface{} of 0..2 scalars, map[string]interface{} with a nested slice, []Object, map[string]Object, Object, payloads symbolic; accessors on U(1,2); histories: 2 Add/Remove steps, Compile, then 3 calls from {Set, Run, Get/IsDefined, Clone (the history may continue on the clone), GetAll} over 4 scripts and 3 names (the third a fresh name or the name of a builtin function) with symbolic values, against a map model; nil/undefined host variables (added, set after compile, through 0..2 clones, run once or twice) inspected by the script", "cross": 2},
         "thorough": {"timeout": "60s", "maxsteps": 12000000, "bounds": "as quick with 5 post-compile calls", "cross": 3},
     },
-    "reach": {"C15_RoundTrip": ["roundtrip"], "C15_Accessors": ["accessors"], "C15_History": ["history"]},
+    "reach": {"C15_RoundTrip": ["roundtrip"], "C15_Accessors": ["accessors"], "C15_History": ["history"], "C15_Undefined": ["undefined"]},
     "assumptions": ["String() of symbolic floats/times in the accessor check uses boundary values; ints there are in (-1000, 1000)"],
     "outside": "tengo.Eval's templating; user Object implementations; longer histories",
     "stubs": COMMON_STUBS,
